@@ -154,6 +154,8 @@ def run(ctx):
     from . import guardvocab
     guardvocab.G0(ctx, effects={'send', 'recv'})
     guardvocab.G1(ctx, effects={'send', 'recv'})
+    guardvocab.G2(ctx, scopes=('rt::mpsc::', 'sync::mpsc::'))
+    guardvocab.G3(ctx, scopes=('rt::mpsc::', 'sync::mpsc::'))
     g_dpor.V1(ctx, subset=CH)
     g_dpor.V2(ctx, subset=CH)
     g_dpor.T3(ctx, mods=["rt::mpsc"])
